@@ -44,6 +44,8 @@ pub const F_REASON: usize = 15;
 pub const F_SER: usize = 16;
 pub const F_HDR: usize = 17;
 pub const F_NTX: usize = 18;
+pub const F_RC3: usize = 19;
+pub const F_RC4: usize = 20;
 
 const TX_KINDS: [&str; 7] = ["Script", "Create", "Mint", "Upgrade(ConsensusParameters)", "Upgrade(StateTransition)", "Upload", "Blob"];
 const IN_KINDS: [&str; 8] = ["-", "CoinSigned", "CoinPredicate", "Contract", "MessageCoinSigned", "MessageCoinPredicate", "MessageDataSigned", "MessageDataPredicate"];
@@ -99,6 +101,9 @@ pub fn factor_table() -> Vec<Factor> {
         Factor { name: "script_result", levels: 4, describe: |l| SER[l as usize].into() },
         Factor { name: "header", levels: 4, describe: |l| NUM_CLASSES[l as usize].into() },
         Factor { name: "subject_txs", levels: 3, describe: |l| format!("{l}") },
+        // receipts of the SECOND subject transaction (the first one uses receipt1/receipt2)
+        Factor { name: "tx2_receipt1", levels: 14, describe: |l| RC_KINDS[l as usize].into() },
+        Factor { name: "tx2_receipt2", levels: 14, describe: |l| RC_KINDS[l as usize].into() },
     ]
 }
 
@@ -123,7 +128,9 @@ pub fn bases(f: &[Factor]) -> Vec<Vec<u8>> {
     rich[F_REASON] = 1;
     rich[F_SER] = 3;
     rich[F_HDR] = 3;
-    rich[F_NTX] = 1;
+    rich[F_NTX] = 2;
+    rich[F_RC3] = 11;
+    rich[F_RC4] = 2;
     let mut empty = vec![0u8; f.len()];
     empty[F_NTX] = 1;
     vec![rich, empty]
@@ -351,9 +358,10 @@ pub fn build_case(_factors: &[Factor], l: &[u8]) -> (Block, Vec<Vec<Receipt>>) {
     let reason = reasons()[l[F_REASON] as usize];
     let mut txs = vec![];
     let mut receipts = vec![];
-    for _ in 0..l[F_NTX] {
+    for i in 0..l[F_NTX] {
         txs.push(subject_tx(&mut g, l));
-        let rs: Vec<Receipt> = [l[F_RC1], l[F_RC2]].into_iter().filter_map(|k| g.receipt(k, reason, l[F_SER])).collect();
+        let kinds = if i == 0 { [l[F_RC1], l[F_RC2]] } else { [l[F_RC3], l[F_RC4]] };
+        let rs: Vec<Receipt> = kinds.into_iter().filter_map(|k| g.receipt(k, reason, l[F_SER])).collect();
         receipts.push(rs);
     }
     txs.push(g.mint());
